@@ -216,6 +216,14 @@ static const std::vector<Nest>& nests() {
         {"json", "array", [](size_t d) { return d ? rep("[", d) + rep("]", d) : std::string("1"); }},
         {"json", "object", [](size_t d) { return d ? rep("{\"a\":", d - 1) + "{}" + rep("}", d - 1) : std::string("1"); }},
         {"json", "mixed", [](size_t d) { std::string s, e; for (size_t i = 0; i < d; ++i) { bool last = i + 1 == d; if (i & 1) { if (last) s += "{}"; else { s += "{\"k\":"; e = "}" + e; } } else { if (last) s += "[]"; else { s += "["; e = "]" + e; } } } return s + (d ? "" : "0") + e; }},
+        // siblings before every nested container: the depth counter must come down again when a container ends
+        {"json", "array_siblings", [](size_t d) { if (!d) return std::string("1"); std::string s, e; for (size_t i = 0; i + 1 < d; ++i) { s += "[[],{},[],"; e += "]"; } return s + "[]" + e; }},
+        {"json", "object_siblings", [](size_t d) { if (!d) return std::string("1"); std::string s, e; for (size_t i = 0; i + 1 < d; ++i) { s += "{\"a\":{},\"b\":[],\"c\":"; e += "}"; } return s + "{}" + e; }},
+        {"cbor", "array_siblings", [](size_t d) { if (!d) return std::string("\x00", 1); std::string s; for (size_t i = 0; i + 1 < d; ++i) s += std::string("\x84\x80\xa0\x80", 4); return s + std::string("\x80", 1); }},
+        {"cbor", "indef_siblings", [](size_t d) { if (!d) return std::string("\x00", 1); std::string s, e; for (size_t i = 0; i + 1 < d; ++i) { s += std::string("\x9f\x9f\xff\xbf\xff", 5); e += "\xff"; } return s + std::string("\x9f\xff", 2) + e; }},
+        {"msgpack", "array_siblings", [](size_t d) { if (!d) return std::string("\x00", 1); std::string s; for (size_t i = 0; i + 1 < d; ++i) s += std::string("\x94\x90\x80\x90", 4); return s + std::string("\x90", 1); }},
+        {"msgpack", "map_siblings", [](size_t d) { if (!d) return std::string("\x00", 1); std::string s; for (size_t i = 0; i + 1 < d; ++i) s += std::string("\x83\xa1\x61\x80\xa1\x62\x90\xa1\x63", 9); return s + std::string("\x80", 1); }},
+        {"ubjson", "array_siblings", [](size_t d) { if (!d) return std::string("Z"); std::string s, e; for (size_t i = 0; i + 1 < d; ++i) { s += "[[]{}[]"; e += "]"; } return s + "[]" + e; }},
         {"cbor", "array", [](size_t d) { return rep("\x81", d ? d - 1 : 0) + (d ? std::string("\x80", 1) : std::string("\x00", 1)); }},
         {"cbor", "indef_array", [](size_t d) { return rep("\x9f", d) + (d ? "" : std::string("\x00", 1)) + rep("\xff", d); }},
         {"cbor", "map", [](size_t d) { return rep("\xa1\x61\x61", d ? d - 1 : 0) + (d ? std::string("\xa0", 1) : std::string("\x00", 1)); }},
@@ -600,8 +608,13 @@ static Result exec_c10(MVal& plan, Stats& st) {
                     {"typed_array", "[$i#" + cnt + rep("\x05", (size_t)nitems)},
                     {"counted_object", "{#" + cnt + rep(std::string("i\x01" "aZ", 4), (size_t)nitems)},
                     {"plain_object", "{" + rep(std::string("i\x01" "aZ", 4), (size_t)nitems) + "}"},
+                    {"typed_object", "{$i#" + cnt + rep(std::string("i\x01" "a\x07", 4), (size_t)nitems)},
+                    {"counted_array_l", "[#l" + be((uint64_t)nitems, 4) + rep("Z", (size_t)nitems)},
+                    {"typed_array_L", "[$U#L" + be((uint64_t)nitems, 8) + rep("\x05", (size_t)nitems)},
+                    {"nested_counted", "[[#" + cnt + rep("Z", (size_t)nitems) + "]"},
                 };
                 for (auto& v : vs) {
+                    if (m == 0 && std::string(v.name) == "nested_counted") continue;   // the outer array itself holds one item
                     C10Case c; c.opts = MVal::obj(); c.opts.set("max_items", MVal::integer(m));
                     c.B = v.bytes; c.expect = delta > 0 ? 1 : 0; c.exp = 0;
                     c.tag = std::string("ubjson.max_items.") + v.name + ".limit" + std::to_string(m) + (delta < 0 ? "-1" : delta == 0 ? "" : "+1");
@@ -669,7 +682,7 @@ static Result exec_c10(MVal& plan, Stats& st) {
         struct EC { int ck; size_t depth; int lim; int expect; };
         std::vector<EC> ecs;
         if (kind == "enc_limit") ecs.push_back(EC{(int)plan.geti("ckind"), (size_t)plan.getu("depth"), (int)plan.geti("limit"), (int)plan.geti("expect")});
-        else if (!plan.has("input_hex")) for (int ck = 0; ck < 3; ++ck) for (int lim : limits) for (int delta = -1; delta <= 1; ++delta) { long d = (long)lim + delta; if (d < 1) continue; ecs.push_back(EC{ck, (size_t)d, lim, delta > 0}); }
+        else if (!plan.has("input_hex")) for (int ck = 0; ck < 5; ++ck) for (int lim : limits) for (int delta = -1; delta <= 1; ++delta) { long d = (long)lim + delta; if (d < 1) continue; ecs.push_back(EC{ck, (size_t)d, lim, delta > 0}); }
         for (auto& e : ecs) {
             if (!R.want()) continue;
             uint64_t blocks0 = ledger::live_blocks();
@@ -677,11 +690,16 @@ static Result exec_c10(MVal& plan, Stats& st) {
             uint64_t own = 0; for (const std::string* sp : {&out.events, &out.error, &out.violation, &out.vdetail}) if (sp->capacity() > 15) ++own;
             bool leaked = ledger::live_blocks() != blocks0 + own;
             st.inc("executions"); st.inc("exec.encoder_nest"); st.inc("limit_checks");
-            std::string tag = fmt + ".encoder." + (e.ck == 0 ? "array" : e.ck == 1 ? "object" : "mixed") + ".limit" + std::to_string(e.lim) + " depth " + std::to_string(e.depth);
+            std::string tag = fmt + ".encoder." + (e.ck == 0 ? "array" : e.ck == 1 ? "object" : e.ck == 2 ? "mixed" : e.ck == 3 ? "array_nolength" : "object_nolength") + ".limit" + std::to_string(e.lim) + " depth " + std::to_string(e.depth);
             bool ok = out.error.empty();
             std::string cls, msg;
             if (!out.violation.empty()) { cls = out.violation; msg = out.vdetail; }
-            else if (!e.expect && !ok) { cls = "encoder-limit-rejects-within"; msg = tag + ": refused (" + out.error + ")"; }
+            else if (!e.expect && !ok) {
+                // an encoder may refuse the call for another reason (MessagePack needs definite lengths): then it also refuses it with no limit in the way
+                Outcome unlimited = R.api.encoder_nest(e.ck, e.depth, 1000000);
+                if (unlimited.error.empty()) { cls = "encoder-limit-rejects-within"; msg = tag + ": refused (" + out.error + ")"; }
+                else st.inc("encoder_variant_unsupported");
+            }
             else if (e.expect && ok) { cls = "encoder-limit-accepts-beyond"; msg = tag + ": written without error"; }
             if (cls.empty() && leaked) { cls = "leak"; msg = tag + ": blocks still allocated after the encoder was destroyed"; }
             st.nontrivial(mix3(fnv1a(tag), (uint64_t)e.lim, e.depth));
